@@ -1,6 +1,9 @@
 package props
 
 import (
+	"fmt"
+
+	"verif/checker/load"
 	"verif/checker/report"
 )
 
@@ -91,6 +94,7 @@ func init() {
 				}
 				c.e9SetBytes(cfg)
 				c.e9ConstD(cfg)
+				c.ruleLengthSweep(cfg, "(*Point).SetBytes", 32, 80)
 			}
 		},
 	})
@@ -126,10 +130,73 @@ func init() {
 			for _, cfg := range c.Configs() {
 				c.e9SqrtRatio(cfg)
 				c.e9AbsoluteNegate(cfg)
+				c.ruleFieldExponents(cfg)
 				names := nameSet([]string{"field.(*Element).SqrtRatio"})
 				if a := c.Eff(cfg); a != nil {
 					c.addAll(keep(a.RAlias(), func(o report.Obligation) bool { return keyHasFunc(o, names) }))
 					c.addAll(keep(a.RFresh(), func(o report.Obligation) bool { return keyHasFunc(o, names) }))
+				}
+			}
+		},
+	})
+}
+
+var trustedLimb = append([]string{
+	"the abstract interpreter checker/absint and its limb domain (intervals over ℕ × integer polynomials, 128-bit pairing of bits.Mul64/Add64 and MULQ/ADDQ/ADCQ/SHLQ)",
+	"math/bits Mul64/Add64 semantics; the instruction semantics of the 9 amd64 and 8 arm64 mnemonics as modelled in checker/absint/asmrun.go",
+}, trustedCommon...)
+
+func init() {
+	register(&Prop{
+		ID: "C09", Level: "proof", Technique: "abstract interpretation of package field in a reduced product of intervals and integer polynomials: least inductive limb bound by fixpoint over all exported operations, machine-operation safety obligations at that bound, value congruences mod p by polynomial normal forms; exponent domain for the addition chains",
+		Explanation: "(1) The representation invariant is computed, not assumed: the least limb bound closed under every exported Element operation (Go and assembly bodies, every build configuration of the tier) — by encapsulation this covers every representation any history of public calls can produce; at that bound every machine operation is free of wrap-around/underflow, the 128-bit accumulators stay below 2^(64+13), outputs stay within the bound, and the bound is < 2^52 and within Subtract's 2p margin. (2) Add, Subtract, Negate, Multiply, Square, Mult32 and carry propagation return limbs whose value is congruent to the specification mod p, as polynomial identities in the input limbs. (3) Invert = z^(p−2) and Pow22523 = x^((p−5)/8) by exponent arithmetic over their addition chains; Absolute = Select(−u, u, IsNegative(u)); Negate = 0 − a.",
+		Assumptions: []string{"the parity/zero tests behind IsNegative/Equal read the fully reduced value (C10)"},
+		TrustedBase: trustedLimb,
+		Floors:      []report.Floor{{Rule: "E4-INV", Min: 2 * 4}, {Rule: "E4-OBL", Min: 2}, {Rule: "E5-CONG", Min: 2 * 9}},
+		Build: func(c *Ctx) {
+			for _, cfg := range c.Configs() {
+				res := c.ruleLimbInvariant(cfg)
+				if res != nil && len(res.problems) == 0 {
+					c.ruleCongruences(cfg, res.box)
+				}
+				c.e9AbsoluteNegate(cfg)
+				c.ruleFieldExponents(cfg)
+			}
+		},
+	})
+}
+
+func init() {
+	register(&Prop{
+		ID: "C20", Level: "translation_validation", Technique: "translation validation by abstract interpretation: polynomial normal forms and interval bounds extracted from the assembly text are compared with those of the portable Go bodies; build-constraint complementarity by exhaustive evaluation of the //go:build expressions",
+		Explanation: "For feMul/feSquare (amd64) and carryPropagate (arm64, thorough tier) the limb polynomials extracted from the .s text and from the portable Go sibling are identical (value mod p and limb for limb, both carry chains), their output bounds at the representation invariant are equal and every assembly machine-operation obligation discharges; the //go:build expressions of every multiply-declared function select exactly one definition under every tag assignment and each body-less stub is selected exactly when its assembly body is; the assembly touches only its pointer arguments (effect events derived from the .s text). Every other function is the same source in both configurations, so byte-identical public behaviour follows. NOT decided: that the assembler emits what the mnemonics say.",
+		TrustedBase: trustedLimb,
+		Programs:    3,
+		Floors:      []report.Floor{{Rule: "TV", Min: 2}, {Rule: "BUILD", Min: 3}},
+		Build: func(c *Ctx) {
+			c.ruleBuildConstraints()
+			for _, cfg := range c.Configs() {
+				res := c.limbInvariant(cfg)
+				if res == nil {
+					continue
+				}
+				for _, pr := range res.problems {
+					c.Set.Problem("%s", pr)
+				}
+				if len(res.problems) > 0 {
+					continue
+				}
+				c.Set.Note("[%s] representation invariant: %s", cfg, res.box)
+				c.ruleAsmVsGeneric(cfg, res.box, "field.feMul", "field.feMulGeneric")
+				c.ruleAsmVsGeneric(cfg, res.box, "field.feSquare", "field.feSquareGeneric")
+				if cfg == "arm64" {
+					c.ruleAsmVsGenericMethod(cfg, res.box)
+				}
+				if a := c.Eff(cfg); a != nil {
+					for f, s := range a.P.Asm {
+						c.Set.Add(report.Obligation{Rule: "ASM-EFFECTS", Key: "ASM-EFFECTS/" + load.ShortName(f), Config: cfg, OK: len(s.Undecided) == 0,
+							Detail: fmt.Sprintf("%d memory events, all through unmodified pointer arguments; writes only to %s", len(s.Events), f.Params[0].Name())})
+					}
 				}
 			}
 		},
